@@ -175,6 +175,8 @@ func c05Module(c c05Case) (text string) {
 			ty = fmt.Sprintf("type %s { %s }", prev, last)
 		}
 		fmt.Fprintf(&sb, "  leaf x { %s }\n  leaf-list xs { %s }\n", ty, ty)
+		// the restricted type as the key of a list: creating an entry must check the key first
+		fmt.Fprintf(&sb, "  list kl { key k; leaf k { %s } leaf v { type string; } }\n", ty)
 		// a sibling declared later narrows the same typedef differently (it restates the nearest
 		// range/length of the chain, which is wider than x's): restrictions of one leaf must not
 		// leak into another leaf derived from the same typedef.
@@ -470,6 +472,46 @@ type c05Write struct {
 func c05DoWrite(path string, m *meta.Module, b *node.Browser, leaf string, cands []c05Cand) (err error, applicable bool) {
 	scalar := cands[0]
 	isList := leaf == "xs"
+	if leaf == "kl" {
+		// a new list entry whose key is the candidate
+		if m.Definition("kl") == nil {
+			return nil, false
+		}
+		switch path {
+		case "UpsertFrom(json)", "InsertFrom(json)":
+			if scalar.json == "" {
+				return nil, false
+			}
+			n, jerr := nodeutil.ReadJSON(fmt.Sprintf(`{"kl":[{"k":%s,"v":"a"}]}`, scalar.json))
+			if jerr != nil {
+				return fmt.Errorf("harness: %v", jerr), true
+			}
+			if path == "InsertFrom(json)" {
+				return b.Root().InsertFrom(n), true
+			}
+			return b.Root().UpsertFrom(n), true
+		case "UpsertFrom(xml)":
+			if scalar.xml == "" || scalar.json2 {
+				return nil, false
+			}
+			n, xerr := nodeutil.ReadXMLDoc(strings.NewReader(`<r xmlns="urn:r"><kl><k>` + xmlEsc(scalar.xml) + `</k><v>a</v></kl></r>`))
+			if xerr != nil {
+				return fmt.Errorf("harness: %v", xerr), true
+			}
+			return b.Root().UpsertFrom(n), true
+		case "UpsertFrom(node)":
+			if scalar.typed == nil {
+				return nil, false
+			}
+			src := model.NewTree()
+			e := model.NewTree()
+			e.Leaves["k"] = model.L(scalar.typed)
+			e.Leaves["v"] = model.L(val.String("a"))
+			src.Lists["kl"] = &model.List{Entries: []*model.Tree{e}}
+			return b.Root().UpsertFrom(store.ContainerNode(src)), true
+		}
+		return nil, false
+	}
 	switch path {
 	case "Set":
 		if isList {
@@ -625,6 +667,9 @@ func (p *c05) Run(raw json.RawMessage) eng.Result {
 				pos   string
 			}
 			trials := []trial{{"x", []c05Cand{cand}, ""}}
+			if c.Kind == "range" || c.Kind == "length" || c.Kind == "pattern" {
+				trials = append(trials, trial{"kl", []c05Cand{cand}, "/list-key"})
+			}
 			if good != nil && c.Kind != "bits" && c.Kind != "union" {
 				// leaf-list: the candidate alone, and among good elements in each position
 				trials = append(trials, trial{"xs", []c05Cand{cand}, "/leaf-list-only"}, trial{"xs", []c05Cand{cand, *good, *good}, "/leaf-list-first"}, trial{"xs", []c05Cand{*good, cand, *good}, "/leaf-list-middle"}, trial{"xs", []c05Cand{*good, *good, cand}, "/leaf-list-last"})
@@ -638,7 +683,8 @@ func (p *c05) Run(raw json.RawMessage) eng.Result {
 				if path == "UpdateFrom(json)" || path == "Set" || path == "SetValue" {
 					// nothing to pre-create: leaves live in the root container
 				}
-				before := st.T.Canon(m.DataDefinitions(), model.CanonOpts{})
+				// an empty list left behind by a refused entry carries no data
+				before := st.T.Canon(m.DataDefinitions(), model.CanonOpts{EmptyListAbsent: true})
 				var err error
 				var applicable bool
 				fr, msg, pan := eng.Recover(func() { err, applicable = c05DoWrite(path, m, b, tr.leaf, tr.elems) })
@@ -649,7 +695,7 @@ func (p *c05) Run(raw json.RawMessage) eng.Result {
 				res.Nontriv++
 				desc := fmt.Sprintf("%s of %v to %s (module: %s)", path, candDesc(tr.elems), tr.leaf, strings.Join(c.Levels, " <- "))
 				cell := site + "/" + cand.class + tr.pos
-				after := st.T.Canon(m.DataDefinitions(), model.CanonOpts{})
+				after := st.T.Canon(m.DataDefinitions(), model.CanonOpts{EmptyListAbsent: true})
 				pathTag := ""
 				sym := ""
 				switch {
@@ -677,6 +723,10 @@ func (p *c05) Run(raw json.RawMessage) eng.Result {
 					ss.add(cell+"/wrong-accept"+pathTag, desc+": stored "+after)
 				case !cand.accept && after != before:
 					ss.add(cell+"/rejected-but-stored", desc+": store now "+after)
+				case cand.accept && tr.leaf == "kl":
+					if l, ok := st.T.Lists["kl"]; !ok || len(l.Entries) != 1 {
+						ss.add(cell+"/accepted-but-not-stored", desc)
+					}
 				case cand.accept:
 					lf, ok := st.T.Leaves[tr.leaf]
 					if !ok {
